@@ -24,6 +24,8 @@ def movie_with(udta_box):
 
 def noise_item(rng):
     code = rng.choice([b"\xa9too", b"\xa9ART", b"trkn", b"----", b"\xa9cmt", b"aART"])
+    if rng.random() < 0.15:
+        return isogen.Box(code, [])       # a header-only item (8 bytes, no data box)
     return isogen.ilst_item(code, rng.choice([0, 1, 21]), bytes(rng.randrange(256) for _ in range(rng.choice([0, 3, 40]))))
 
 
@@ -101,8 +103,13 @@ def cases(rng, tier):
             u = all_four()
             all_boxes(u)[j].large = True
             out.append(("large_one_h%d_%d" % (hf, j), movie_with(u), {"title": "Titre \u00e9".encode(), "year": 1999, "poster": b"\xff\xd8\xff\xe0" * 9, "summary": b"summary"}))
-    for i, ytxt in enumerate((b"", b"+1999", b"02024", b" 2024", b"2024 ", b"4294967296", b"2024-05-17", b"-0", b"+")):
-        out.append(("year_text_%d" % i, movie_with(isogen.udta([isogen.meta([isogen.ilst([isogen.ilst_item(isogen.YEAR, 1, ytxt)])])])), None))
+    # the year as text: the number the decimal digits denote (an optional '+'), when it fits 32 bits; anything else (spaces, a date, a minus sign,
+    # more than 2^32-1) is not a year the accessor can return
+    import re as _re
+    for i, ytxt in enumerate((b"", b"+1999", b"02024", b" 2024", b"2024 ", b"4294967296", b"2024-05-17", b"-0", b"+", b"4294967295", b"4294969304", b"99999999999999999999",
+                              b"0", b"+0", b"20240517123000")):
+        yv = int(ytxt) if _re.fullmatch(rb"\+?[0-9]+", ytxt) and int(ytxt) < (1 << 32) else None
+        out.append(("year_text_%d" % i, movie_with(isogen.udta([isogen.meta([isogen.ilst([isogen.ilst_item(isogen.YEAR, 1, ytxt)])])])), {"year": yv} if yv is not None else {}))
     for i, (dt, pl) in enumerate(((0, b"\x07\xe8"), (0, b"\0\0\x07\xe8\0"), (21, b"\0\0\x07\xe8"), (13, b"\0\0\x07\xe8"), (0, b""), (0, b"\x07"), (0, b"\0\x07\xe8"),
                                  (21, b""), (13, b""), (0, b"\xff\xff\xff\xff"), (0, b"\0" * 8))):
         out.append(("year_bin_%d" % i, movie_with(isogen.udta([isogen.meta([isogen.ilst([isogen.ilst_item(isogen.YEAR, dt, pl)])])])), None))
@@ -142,6 +149,13 @@ def cases(rng, tier):
             elif e.typ == isogen.SUMMARY:
                 exp["summary"] = b"s-new"
         out.append(("dup_after_four_%d" % i, movie_with(isogen.udta([isogen.meta([isogen.ilst(copy.deepcopy(four) + extra)])])), exp))
+    # header-only unknown items (8 bytes) in front of, between and behind the known ones
+    for i, pos in enumerate((0, 1, 2, 4)):
+        items = [itx(isogen.TITLE, 1, b"T8"), itx(isogen.YEAR, 1, b"2012"), itx(isogen.POSTER, 13, b"\xff\xd8"), itx(isogen.SUMMARY, 1, b"S8")]
+        items.insert(pos, isogen.Box(b"\xa9too", []))
+        if i % 2:
+            items.insert(pos, isogen.Box(b"zzzz", []))
+        out.append(("empty_unknown_%d" % i, movie_with(isogen.udta([isogen.meta([isogen.ilst(items)], fullbox=(i != 2))])), {"title": b"T8", "year": 2012, "poster": b"\xff\xd8", "summary": b"S8"}))
     out.append(("dup_title", movie_with(isogen.udta([isogen.meta([isogen.ilst([isogen.ilst_item(isogen.TITLE, 1, b"first"), isogen.ilst_item(isogen.TITLE, 1, b"second")])])])), None))
     out.append(("no_udta", movie_with(None), {}))
     out.append(("udta_no_meta", movie_with(isogen.udta([isogen.Box("free", [])])), {}))
